@@ -609,7 +609,7 @@ Proof.
                   (lit_single_width l) (lit_nodes_of l) Hlp Hext _ Hr) as H3.
     cbn [pat_is_match pat_find pat_rfind]. split; [exact H1|]. split; [exact H2|].
     destruct (lit_find cfg l text true) as [[x y]|]; exact H3.
-  - pose proof (compile_ast_cases cfg a (single_width_closed a Hsw) Hlit) as Hc.
+  - pose proof (compile_ast_cases cfg a Hlit) as Hc.
     rewrite rx_of_ast_nodes in Hc.
     destruct (all_some (map node_of_atom a)) as [ns|] eqn:Hns; cbn [omap] in Hc.
     + rewrite Hc.
